@@ -13,12 +13,15 @@ from syn_gen import *
 from gen import Gen
 import l2
 
-NEEDS = ("runner",)
+NEEDS = ("runner", "cli")
 TRUSTED = ["tools/c05.py: `expected` (the property's reading of a Rust type: which target tree it demands), the six "
            "target-expression parsers, and `TINFO` (JSON category / value range of each target primitive type, the python "
            "copy of TsV.C05L.tinfo)",
            "TsV.C05L.tinfo / jsonCat / primRange / primMant (Lean): what each target type name can hold and how serde "
-           "writes each Rust primitive"]
+           "writes each Rust primitive",
+           "tools/c05.py: the precedence rule the effective settings of a command line are computed by (an option, also an empty one, "
+           "wins over the key of typeshare.toml, which wins over the empty default; type_mappings / no_pointer_slice come from the "
+           "section of the language that is generated), cross-checked against TsV Config.overrideConfiguration on every run"]
 
 SMART = ["Box", "Weak", "Arc", "Rc", "Cow", "ArcWeak", "RcWeak", "Cell", "Mutex", "RefCell", "RwLock"]
 PRIM_OF = {"OffsetDateTime": "OffsetDateTime", "str": "String", "String": "String", "bool": "bool", "char": "char",
@@ -1238,6 +1241,370 @@ def neighbours_part(check):
     return False
 
 
+# ------------------------------------------------------------------ how a setting travels to the back end (the binary)
+
+# name, long flag, short flag, (typeshare.toml section, key), index in the record of the Lean configuration model
+CLI_SETTINGS = [("swift-prefix", "--swift-prefix", "-s", ("swift", "prefix"), 0),
+                ("kotlin-prefix", "--kotlin-prefix", "-k", ("kotlin", "prefix"), 1),
+                ("java-package", "--java-package", "-j", ("kotlin", "package"), 2),
+                ("kotlin-module", "--module-name", "-m", ("kotlin", "module_name"), 3),
+                ("scala-package", "--scala-package", None, ("scala", "package"), 4),
+                ("scala-module", "--scala-module-name", None, ("scala", "module_name"), 5),
+                ("go-package", "--go-package", None, ("go", "package"), 6)]
+# the setting of each language whose route is enumerated (the others are drawn); a language needs the ones in REQUIRED to run at all
+PRIMARY = {"kotlin": "kotlin-prefix", "swift": "swift-prefix", "scala": "scala-package", "go": "go-package"}
+REQUIRED = {"scala": "scala-package", "go": "go-package"}
+PREFIX_VALUES = ["Pf", "OP", "X_", "F", "Foo", "Ba", "Node", "It", "KT", "SW", "Api", "Tk"]
+
+
+def toml_of(secs):
+    """{section: {key: text | bool | {key: text}}} -> the text of a typeshare.toml"""
+    out = []
+    for sec, kv in secs.items():
+        out.append("[%s]" % sec)
+        for k, v in kv.items():
+            if not isinstance(v, dict):
+                out.append("%s = %s" % (k, "true" if v is True else "false" if v is False else json.dumps(v)))
+        for k, v in kv.items():
+            if isinstance(v, dict):
+                out.append("[%s.%s]" % (sec, k))
+                out += ["%s = %s" % (json.dumps(kk), json.dumps(vv)) for kk, vv in v.items()]
+        out.append("")
+    return "\n".join(out)
+
+
+def nested_user_members(rng):
+    """a user type alone and below 1-3 stacked constructors (sequence, optional, map value / key, array, slice, erased pointer,
+    argument of another user type), a user type applied to a user type and a parameter, a primitive / a parameter for contrast,
+    and up to three members of one of the families of `family`"""
+    u, v = rng.sample(USER, 2)
+    U = t_path(u)
+    wraps = [lambda x: t_path("Vec", [x]), lambda x: t_path("Option", [x]), lambda x: t_path("HashMap", [t_path("String"), x]),
+             lambda x: ("array", x, 2), lambda x: t_path("Box", [x]), lambda x: t_path(v, [x]), lambda x: ("ref", ("slice", x), False)]
+    out, cur = [U], U
+    for _ in range(rng.randint(2, 3)):
+        cur = rng.choice(wraps)(cur)
+        out.append(cur)
+    out.append(t_path(v, [U, t_path("T")]))
+    out.append(t_path("HashMap", [rng.choice([t_path("String"), U]), t_path("Vec", [t_path("Option", [U])])]))
+    out.append(t_path(rng.choice(["u32", "String", "T"])))
+    out += family(rng, rng.choice(FAMILY_KINDS[:-1]))[:3]
+    return out
+
+
+def _setting_value(rng, name, tag, used):
+    """a value for setting `name` that no other setting / route of the scenario has (so a value that arrives at the wrong place, or
+    from the wrong source, shows)"""
+    while True:
+        if name.endswith("prefix"):
+            v = rng.choice(PREFIX_VALUES)
+        elif name.endswith("package"):
+            v = "%s.%s%d.%s" % (rng.choice(["com", "org", "net"]), tag, rng.randint(0, 99), name[:2]) if name != "go-package" \
+                else "%s%s%d" % (name[:2], tag, rng.randint(0, 99))
+        else:
+            v = "%sMod%d" % (tag.title(), rng.randint(0, 99))
+        if v not in used:
+            used.add(v)
+            return v
+
+
+def cli_scenario(rng, lang, route, company, no_file):
+    """one way for the settings to arrive. `route`: where the primary setting of `lang` comes from (option / file / both / absent);
+    `company`: which options *of the other languages* stand on the same command line (none / all / some); `no_file`: there is no
+    typeshare.toml at all (every setting is an option or the default)."""
+    used, opt, fil = set(), {}, {}
+    for name, _long, _short, (sec, _key), _idx in CLI_SETTINGS:
+        own = sec == lang
+        if own:
+            r = route if name == PRIMARY.get(lang) else rng.choice(["option", "file", "both", "absent"])
+            if r == "absent" and REQUIRED.get(lang) == name:
+                r = "both-same"
+        else:
+            r = {"none": "absent", "all": "option", "some": rng.choice(["absent", "option"])}[company]
+            if rng.random() < 0.6:
+                r = {"absent": "file", "option": "both"}[r]
+        if no_file:
+            r = {"file": "absent", "both": "option", "both-same": "option"}.get(r, r)
+        if r in ("option", "both", "both-same"):
+            opt[name] = _setting_value(rng, name, "opt", used)
+        if r in ("file", "both"):
+            fil[name] = _setting_value(rng, name, "file", used)
+        if r == "both-same":
+            fil[name] = opt[name]
+        if r == "both" and name.endswith("prefix") and rng.random() < 0.2:
+            opt[name] = ""                    # an option that is given but empty is still given
+    eff = {name: opt[name] if name in opt else fil.get(name, "") for name, *_ in CLI_SETTINGS}
+    return opt, fil, eff
+
+
+def cli_tokens(rng, lang, opt, out_group, cfg_group, root):
+    """the command line as a list of groups (one option with its value each) in a random order, each option in one of its
+    spellings (long, long=value, short), the scanned directory at a random place"""
+    groups = [rng.choice([["--lang", lang], ["-l", lang], ["--lang=" + lang]]), out_group]
+    if cfg_group:
+        groups.append(cfg_group)
+    for name, long_, short, _sk, _idx in CLI_SETTINGS:
+        if name in opt:
+            v = opt[name]
+            forms = [[long_, v]]
+            if v != "":
+                forms.append(["%s=%s" % (long_, v)])
+            if short:
+                forms.append([short, v])
+            groups.append(rng.choice(forms))
+    rng.shuffle(groups)
+    groups.insert(rng.choice([0, len(groups), rng.randint(0, len(groups))]), [root])
+    return groups
+
+
+def effective_cfg(lang, eff, tm, nps):
+    c = {"type_mappings": dict(tm), "version_header": True}
+    if lang == "kotlin":
+        c.update(package=eff["java-package"], module_name=eff["kotlin-module"], prefix=eff["kotlin-prefix"])
+    elif lang == "swift":
+        c.update(prefix=eff["swift-prefix"])
+    elif lang == "scala":
+        c.update(package=eff["scala-package"], module_name=eff["scala-module"])
+    elif lang == "go":
+        c.update(package=eff["go-package"], no_pointer_slice=nps)
+    return c
+
+
+def _read_outputs(sc, folder, lang):
+    if folder:
+        d = sc.path("out")
+        return {fn: open(os.path.join(d, fn), encoding="utf-8").read() for fn in sorted(os.listdir(d))} if os.path.isdir(d) else {}
+    p = sc.path("out." + EXT[lang])
+    return {"": open(p, encoding="utf-8").read()} if os.path.exists(p) else {}
+
+
+def _cli_run(sc, groups, cwd):
+    args = [a for g_ in groups for a in g_]
+    return args, run_cli(args, cwd=cwd)
+
+
+def cli_settings_part(check):
+    """the way a setting travels from the command line / typeshare.toml to the back end (the real binary): the settings the expected
+    translation depends on - the Kotlin / Swift prefix, each language's own type_mappings table, Go's no_pointer_slice - and the package
+    / module names arrive by every route: option, typeshare.toml (named by -c or found in an ancestor directory), both (the option
+    wins, an empty option too), neither; alone, and *together with the options of the other languages on the same command line*
+    (none / every one of the seven options at once / a random subset; the file has a section for every language, with other
+    prefixes and with type_mappings tables that map the same keys to other names), in a random order of the options and in the
+    reverse order, long / long=value / short spellings, single-file and folder output, all six languages.  The program uses user
+    types alone and below 1-3 constructors as fields, variant fields, newtype payloads and alias targets.  Demands, judged on the
+    files the binary wrote: every use site parses back to the tree `expected` demands under the *effective* settings (prefixed user
+    type names at every depth, the language's own mappings) and equals the in-process translation of the expression under them;
+    aliases are defined under the effective prefix; the files equal what the back end writes in-process when handed the effective
+    settings; the order of the options does not matter.  The Lean configuration model gives the effective settings and the Lean
+    back-end models are run under them."""
+    rng = check.rng
+    g = Gen(rng)
+    reps = 12 if check.thorough else 2
+    scen = []
+    for rep in range(reps):
+        for lang in LANGS:
+            for route in ("option", "file", "both", "absent"):
+                for company in ("none", "all", "some"):
+                    folder = rng.random() < 0.3
+                    no_file = route in ("option", "absent") and rng.random() < 0.35
+                    opt, fil, eff = cli_scenario(rng, lang, route, company, no_file)
+                    members = nested_user_members(rng)
+                    tm = rand_cfg(rng, lang, rng.choice(members))["type_mappings"] if rng.random() < 0.5 and not no_file else {}
+                    nps = rng.random() < 0.5 and not no_file
+                    cfg = effective_cfg(lang, eff, tm, nps)
+                    members = [m for m in members if translatable(lang, cfg, ["T"], m)]
+                    if len(members) < 2:
+                        check.count("cli-settings-family-too-small-after-dropping-refused-members")
+                        continue
+                    order = rng.sample(range(1, 90), len(members))
+                    crates = rng.sample(["alpha", "beta", "gamma"], rng.randint(2, 3)) if folder else [""]
+                    jobs, sites, names = neighbour_program(rng, members, order, rng.choice(["fields", "mixed"]), [True] * len(members), crates)
+                    # typeshare.toml: a section for every language; the other languages' tables map the same keys (and a user type)
+                    # to other names, so a table / a value that reaches the wrong back end shows
+                    secs = {}
+                    for M in rng.sample(LANGS, len(LANGS)):
+                        sec = {}
+                        for name, _l, _s, (s_, key), _i in CLI_SETTINGS:
+                            if s_ == M and name in fil:
+                                sec[key] = fil[name]
+                        if M == "go":
+                            sec["no_pointer_slice"] = nps if lang == "go" else rng.random() < 0.5
+                        table = dict(tm) if M == lang else {k: "Other" + M.title() for k in tm}
+                        if M != lang and rng.random() < 0.5:
+                            table[rng.choice(USER)] = "Wrong" + M.title()
+                        if table or rng.random() < 0.5:
+                            sec["type_mappings"] = table
+                        if sec or rng.random() < 0.5:
+                            secs[M] = sec
+                    has_file = not no_file
+                    discover = rng.choice(["-c", "ancestor"]) if has_file else "no-file"
+                    scen.append(dict(lang=lang, route=route, company=company, folder=folder, opt=opt, fil=fil, eff=eff, tm=tm, nps=nps,
+                                     cfg=cfg, members=members, order=order, jobs=jobs, sites=sites, names=names,
+                                     toml=toml_of(secs) if has_file else None, discover=discover))
+    # in-process: the programs under the effective settings, each member alone, the Lean models
+    reqs, alone, allnames, cfgreqs = [], [], set(), []
+    for s in scen:
+        mreq, rreq, texts = l2.requests(s["lang"], s["cfg"], s["jobs"], g, multi_file=s["folder"])
+        s["texts"] = texts
+        reqs.append((mreq, rreq))
+        alone += [mk_requests(s["lang"], s["cfg"], ["T"], m)[1] for m in s["members"]]
+        allnames |= s["names"]
+        file7 = [s["fil"].get(name, "") for name, *_ in CLI_SETTINGS] if s["toml"] is not None else None
+        cfgreqs.append([S("config"), file7, [s["opt"].get(name) for name, *_ in CLI_SETTINGS], s["lang"] == "go"])
+    mans = model([m for m, _ in reqs], names=allnames | set(USER))
+    cans = model(cfgreqs, with_unicode=False)
+    rans = runner([r for _, r in reqs])
+    aans = runner(alone)
+    pos, mismatch = 0, None
+    for s, ma, ca, ra in zip(scen, mans, cans, rans):
+        lang, cfg, members, order, eff = s["lang"], s["cfg"], s["members"], s["order"], s["eff"]
+        single = aans[pos:pos + len(members)]
+        pos += len(members)
+        runs = []
+        with Scratch() as sc:
+            root = "ws" if s["folder"] else "ws/proj"
+            for j, t in zip(s["jobs"], s["texts"]):
+                sc.write("%s/%s" % (root, j["path"]), t)
+            cfg_group = None
+            if s["toml"] is not None:
+                if s["discover"] == "-c":
+                    sc.write("cfg/settings.toml", s["toml"])
+                    cfg_group = rng.choice([["-c", sc.path("cfg/settings.toml")], ["--config-file", sc.path("cfg/settings.toml")]])
+                else:
+                    sc.write("ws/typeshare.toml", s["toml"])
+            out_group = ["-d", sc.path("out")] if s["folder"] else ["-o", sc.path("out." + EXT[lang])]
+            groups = cli_tokens(rng, lang, s["opt"], out_group, cfg_group, sc.path(root))
+            args, r = _cli_run(sc, groups, sc.path(root))
+            outs = _read_outputs(sc, s["folder"], lang)
+            runs.append((args, r, outs))
+            if len(s["opt"]) >= 2:
+                # the same options in the reverse order, into a fresh destination
+                shutil.rmtree(sc.path("out"), ignore_errors=True)
+                if os.path.exists(sc.path("out." + EXT[lang])):
+                    os.remove(sc.path("out." + EXT[lang]))
+                args2, r2 = _cli_run(sc, list(reversed(groups)), sc.path(root))
+                runs.append((args2, r2, _read_outputs(sc, s["folder"], lang)))
+            scratch = sc.dir
+        show = lambda a: " ".join(x.replace(scratch, "$S") if x else '""' for x in a)
+        given = sorted(s["opt"])
+        check.saw(("cli-settings", lang, s["route"], s["company"], tuple(s["texts"]), json.dumps(cfg, sort_keys=True), s["toml"]), nontrivial=True)
+        check.count("cli-settings-" + lang)
+        check.count("cli-settings-primary-route-" + s["route"])
+        check.count("cli-settings-other-languages-options-" + s["company"])
+        check.count("cli-settings-options-on-one-command-line-%d" % len(given))
+        check.count("cli-settings-config-" + s["discover"])
+        check.count("cli-settings-output-" + ("folder" if s["folder"] else "file"))
+        if "swift-prefix" in s["opt"] and "kotlin-prefix" in s["opt"]:
+            check.count("cli-settings-both-prefix-options-" + lang)
+        if any(v == "" for v in s["opt"].values()):
+            check.count("cli-settings-empty-option-over-file-value")
+        if s["tm"]:
+            check.count("cli-settings-own-type-mappings-table")
+        how = "`%s`%s" % (show(runs[0][0]), "" if s["toml"] is None else " with a typeshare.toml (%s) holding %s" % (
+            s["discover"], ", ".join("%s = %r" % (n, v) for n, v in sorted(s["fil"].items())) or "no shared setting"))
+        settings_txt = ", ".join("%s = %r" % (k, v) for k, v in sorted(cfg.items()) if k not in ("version_header",))
+        case = {"lang": lang, "command_line": [x.replace(scratch, "$S") for x in runs[0][0]], "cwd": "$S/" + root,
+                "typeshare_toml": s["toml"], "config_found_by": s["discover"],
+                "sources": {"%s/%s" % (root, j["path"]): t for j, t in zip(s["jobs"], s["texts"])},
+                "options": s["opt"], "file_values": s["fil"], "effective_settings": cfg,
+                "members_in_declaration_and_name_order": [render_type(members[i]) for i in sorted(range(len(members)), key=lambda i: order[i])]}
+        # the Lean configuration model agrees with the precedence rule the effective settings were computed by
+        if ca.get("ok") != [eff[name] for name, *_ in CLI_SETTINGS] and mismatch is None:
+            mismatch = ("the Lean configuration model gives the effective settings %s, the precedence rule (option, else file, else empty) "
+                        "gives %s for %s" % (ca, eff, how), case, None, ca,
+                        "correspondence of Config.overrideConfiguration with the rule of tools/c05.py (C20_override)")
+        if "ok" not in ra:
+            check.violation("%s refuses in-process a program all of whose types it translates alone (%s): %s"
+                            % (lang, ", ".join("`%s`" % render_type(m) for m in members), ra), case=case, impl=ra, model=ma, failing_input=True)
+            return True
+        args, r, outs = runs[0]
+        impl = {"rc": r["rc"], "stderr": (r["err"] or "")[-600:], "files": outs}
+        if r["rc"] != 0 or not outs:
+            check.violation("%s: the binary run as %s exits with %s and writes %d file(s); in-process the back end generates the program under the "
+                            "effective settings (%s)" % (lang, how, r["rc"], len(outs), settings_txt), case=case, impl=impl, model=ma, failing_input=True)
+            return True
+        lines = [l.rstrip(",") for _fn, text_ in sorted(outs.items()) for l in text_.split("\n")]
+        pfx = cfg.get("prefix", "")
+        other_pfx = [p for p in dict.fromkeys(list(s["opt"].values()) + list(s["fil"].values()) + [""]) if p != pfx]
+        for i, site, name, sc_ in s["sites"]:
+            syn = members[i]
+            rust = render_type(syn)
+            a = norm_ans(single[i])
+            check.count("cli-settings-sites")
+            where = "%s `%s`" % (site, name)
+            cands = site_texts(lang, site, name, pfx, sc_, lines)
+            parsed = []
+            for c in cands:
+                try:
+                    parse_target(lang, c)
+                    parsed.append(c)
+                except PErr:
+                    pass
+            if not parsed and lang in PREFIXES and site != "field":
+                for p in other_pfx:
+                    if site_texts(lang, site, name, p, sc_, lines):
+                        check.violation("%s run as %s: the %s is defined as `%s%s`; the effective prefix is %r (%s)"
+                                        % (lang, how, where, p, name, pfx, settings_txt),
+                                        case=dict(case, site=name, rust_type=rust), impl=impl, model=ma, failing_input=True)
+                        return True
+            if not parsed:
+                check.violation("%s run as %s: no line of the output carries a %s type expression for the %s of type `%s` (candidates %s; "
+                                "in-process under the effective settings it translates to %s)" % (lang, how, lang, where, rust, cands, a.get("ok", a)),
+                                case=dict(case, site=name, rust_type=rust), impl=impl, model=ma, failing_input=True)
+                return True
+            text = parsed[0]
+            probs = oracle(lang, cfg, ["T"], syn, {"ok": text})
+            wcase = dict(case, site=name, rust_type=rust, written=text, in_process=a.get("ok", a))
+            unknown = [p for p, kid in probs if not (kid and check.known(kid, dict(wcase, problem=p)))]
+            if unknown:
+                check.violation("%s run as %s: the %s of type `%s` is written `%s`; under the effective settings (%s) the property demands "
+                                "otherwise: %s" % (lang, how, where, rust, text, settings_txt, unknown[0]),
+                                case=wcase, impl=impl, model=ma, failing_input=True)
+                return True
+            if "ok" not in a or a["ok"] != text:
+                check.violation("%s run as %s: the %s of type `%s` is written `%s`; the back end handed the effective settings (%s) "
+                                "translates `%s` to %s" % (lang, how, where, rust, text, settings_txt, rust, a.get("ok", a)),
+                                case=wcase, impl=impl, model=ma, failing_input=True)
+                return True
+            check.count("cli-settings-sites-agree-with-expected-tree-and-in-process")
+        # the files are what the back end writes when it is handed the effective settings
+        for crate, want in ra["ok"].items():
+            if crate.startswith("<post>/"):
+                got = [t for fn, t in outs.items() if fn == crate[len("<post>/"):]]
+            elif s["folder"]:
+                got = [t for fn, t in outs.items() if fn.lower().startswith(crate.lower() + ".")]
+            else:
+                got = list(outs.values())
+            if len(got) != 1 or got[0] != want:
+                check.violation("%s run as %s: the file for `%s` differs from what the back end writes in-process under the effective "
+                                "settings (%s): %s" % (lang, how, crate or "the single output", settings_txt,
+                                                       l2.text_diff(want, got[0]).replace("model:", "in-process:").replace("impl :", "binary    :") if got else "no such file"),
+                                case=case, impl=impl, model={"in_process": ra}, failing_input=True)
+                return True
+        check.count("cli-settings-files-equal-in-process-output")
+        if len(runs) > 1:
+            args2, r2, outs2 = runs[1]
+            check.count("cli-settings-reversed-option-order")
+            if r2["rc"] != 0 or outs2 != outs:
+                diff = next((l2.text_diff(outs[k], outs2.get(k, "")) for k in outs if outs[k] != outs2.get(k)), "exit status %s" % r2["rc"])
+                check.violation("%s: the same options in two orders give different output: `%s` vs `%s`: %s" % (lang, show(args), show(args2), diff),
+                                case=dict(case, command_line_2=[x.replace(scratch, "$S") for x in args2]), impl=impl,
+                                model={"rc": r2["rc"], "files": outs2}, failing_input=True)
+                return True
+        ma_n, ra_n = l2.norm(ma), l2.norm(ra)
+        if ma_n != ra_n and mismatch is None:
+            d = None
+            if "ok" in ma_n and "ok" in ra_n:
+                d = l2.text_diff("".join(v for _, v in sorted(ma_n["ok"].items())), "".join(v for _, v in sorted(ra_n["ok"].items())))
+            mismatch = ("generate_types under the effective settings of a command line differs from the model (%s): %s" % (lang, d or (ma_n, ra_n)),
+                        case, ra, ma, "correspondence L2 generate_types (use sites of formatType; theorem TsV.C05.C05_compositional)")
+    if mismatch:
+        what, case, ra, ma, broken = mismatch
+        check.violation(what, case=case, impl=ra, model=ma, failing_input=False, broken=broken)
+        return True
+    return False
+
+
 # ------------------------------------------------------------------ the check
 
 WITNESSES = {
@@ -1260,6 +1627,11 @@ def run(check):
                   "expressions equal up to one component (array length, what is below an Option, generic arguments, map key vs "
                   "value, element, sequence kind, erased wrappers, nesting depth, `T` declared or not), in an order and its reverse, "
                   "each use site judged by the expected tree of its own expression and against the translation obtained alone; "
+                  "(f) the binary: 6 languages x {option, typeshare.toml, both, neither} for the language's primary setting (prefix / "
+                  "package) x {no, all seven, some} options of the other languages on the same command line, random order and its "
+                  "reverse, three option spellings, -c / ancestor search, -o / -d, per-language type_mappings tables: user types at "
+                  "nesting depth 0-3 at every use site judged by the expected tree under the effective settings, files equal to the "
+                  "in-process output under them; "
                   "non-trivial = the type has a constructor or the configuration has a mapping")
     # (a) primitives
     cases = []
@@ -1304,6 +1676,9 @@ def run(check):
     # (e) several neighbouring type expressions in one run
     if neighbours_part(check):
         return
+    # (f) the binary: the settings the expected translation depends on, arriving by every route
+    if cli_settings_part(check):
+        return
     # Go's acronym pass runs over whole formatted type expressions: a user type must come out the same at every position of a
     # type expression (alone, element, map key / value, generic argument) as where it is defined (the part is shared with C09)
     import c09
@@ -1335,6 +1710,23 @@ def replay(check, case):
         print("implementation now answers:", ra)
         print("stored implementation answer:", case.get("implementation"))
         return 0 if ra != case.get("implementation") else 1
-    print("replay supports format_type cases only")
+    if "command_line" in c:
+        # a binary-level case: sources, typeshare.toml and the command line are stored with `$S` for the scratch directory
+        build_cli()
+        with Scratch() as sc:
+            for rel, text in c["sources"].items():
+                sc.write(rel, text)
+            if c.get("typeshare_toml") is not None:
+                sc.write("cfg/settings.toml" if c.get("config_found_by") == "-c" else "ws/typeshare.toml", c["typeshare_toml"])
+            r = run_cli([x.replace("$S", sc.dir) for x in c["command_line"]], cwd=c["cwd"].replace("$S", sc.dir))
+            folder = "-d" in c["command_line"]
+            outs = _read_outputs(sc, folder, c["lang"])
+        print("typeshare", " ".join(x or '""' for x in c["command_line"]), "-> exit", r["rc"])
+        for fn, text in outs.items():
+            print("----", fn or "output file")
+            print(text)
+        stored = (case.get("implementation") or {}).get("files")
+        return 0 if outs != stored else 1
+    print("replay supports format_type and binary-level cases only")
     return 2
 
